@@ -464,6 +464,21 @@ impl TransformerContext {
         }
 
         for (key, value) in &attrs {
+            // (a shorthand on the element itself spells the same thing out already)
+            let own_shorthand = match key.as_str() {
+                "x" | "y" => Some("xy"),
+                "cx" | "cy" => Some("cxy"),
+                "x1" | "y1" => Some("xy1"),
+                "x2" | "y2" => Some("xy2"),
+                "width" | "height" => Some("wh"),
+                "rx" | "ry" => Some("rxy"),
+                "dx" | "dy" => Some("dxy"),
+                "dw" | "dh" => Some("dwh"),
+                _ => None,
+            };
+            if own_shorthand.is_some_and(|shorthand| el.has_attr(shorthand)) {
+                continue;
+            }
             el.set_default_attr(key, value);
         }
         el.add_classes(&classes);
